@@ -68,6 +68,10 @@ CHECKS.update({
    text=W+"Hosts register (connect and legacy host) with 16 kinds of node-URI override from 9 kinds of connection source address; what is stored and what a client is handed is parsed with the agent-side parser and net.SplitHostPort and must carry the authenticated id and the supplied/connection host and port; undeterminable addresses must be refused.",
    note="Low simulation weight: the schedule is inert, the simulator contributes the transport-supplied source address and the three-party round trip.",
    technique=TECH+"registration inputs x connection source addresses through the real connect path, round-trip parse oracle", design="4 C19"),
+ "C10": dict(level="exploration",
+   text=W+"Bursts of 2-8 overlapping update / peer / addNode calls and duplicate copies of one signed request from agents sharing hosts and a wallet (including two keep-alives of one client), interleaved at every store-operation boundary and at the in-transaction yield points of the badger driver (real optimistic conflicts). At quiescence: every balance holder's credit moved by what some one-at-a-time order of the acknowledged requests moves it (interval arithmetic over the charge), the credit sum is conserved, a nonce is honoured at most once, every Balance/Node handed out by a store (and every balance in a reply) is unchanged by later operations. A tenth of the runs is repeated in a -race build in which the scheduler's own hand-offs are hidden from ThreadSanitizer, so accesses the code itself leaves unordered are reported even though they were run one after the other.",
+   note="Serialisability is checked on resulting balances and nonce decisions by interval arithmetic rather than by a general linearizability search; peer sets are kept fresh so that no eviction depends on the order. Inside one store call of the memory driver no interleaving is possible under the cooperative scheduler: removed locking there is the race build's job. Socket transport concurrency (gorilla) is covered by C17's race scenario, not here.",
+   technique=TECH+"concurrent request bursts interleaved at store-op and in-transaction yield points; serial-order interval oracle, snapshot-immutability registry, race detector with masked hand-offs", design="4 C10"),
 })
 
 PENDING = {}  # property -> reason it is not claimed at this commit
